@@ -167,4 +167,65 @@ theorem exchCall_outcome (r : Nat) (s : State) (hinv : InvG s) (hnew : toAddOf (
       · simp [clearExch, State.setObj, recordDeleted, saveFixed, hs1c, hinv.noSaved]
       · simp [clearExch, State.setObj, recordDeleted, saveFixed, hs1c, hinv.noSaved]
 
+/-! ## the sizes recorded for the per-particle notification -/
+
+theorem notifyParts_nil (refs added removed : List Nat) (h : List MoveObj) :
+    notifyParts refs [] added removed h = notifyRefs refs added removed h := rfl
+
+theorem notifyParts_one (refs : List Nat) (n : Nat) (added removed : List Nat) (h : List MoveObj) :
+    notifyParts refs [n] added removed h = notifyRefs refs added removed h := rfl
+
+/-- at most one recorded particle: the single notification of before -/
+theorem notifyParts_short (refs sizes added removed : List Nat) (h : List MoveObj) (hs : sizes.length ≤ 1) :
+    notifyParts refs sizes added removed h = notifyRefs refs added removed h := by
+  match sizes, hs with
+  | [], _ => rfl
+  | [_], _ => rfl
+
+/-- a single `ExchangeMove` call records at most one more particle size -/
+theorem exchCall_sizes (r : Nat) (s : State) (hfx : FixedOK s.atoms) :
+    (exchCall r s).2.ctx.addedSizes = s.ctx.addedSizes ∨
+    ∃ n, (exchCall r s).2.ctx.addedSizes = s.ctx.addedSizes ++ [n] := by
+  unfold exchCall
+  obtain ⟨d1, d2, d3⟩ := exchDecide_spec r s
+  rcases hdec : exchDecide r s with ⟨isAdd, s0⟩
+  rw [hdec] at d1 d2 d3
+  simp only [] at d1 d2 d3 ⊢
+  cases isAdd with
+  | true =>
+    simp only [if_true, exchAdd]
+    have hfx0 : FixedOK s0.atoms := by rw [d1]; exact hfx
+    obtain ⟨_, hc, _⟩ := attemptAddition_spec r s0 hfx0
+    rcases hadd : attemptAddition r s0 with ⟨idx, s1⟩
+    rw [hadd] at hc
+    dsimp only at hc
+    have hsz : s1.ctx.addedSizes = s.ctx.addedSizes := by
+      have := congrArg Ctx.addedSizes hc; simp only [ctxCore] at this; rw [this, d3]
+    by_cases hie : idx.isEmpty = true
+    · simp only [hie, if_true]
+      left; rw [(clearExch_atoms s1 r).2, hsz]
+    · have hie' : idx.isEmpty = false := by simpa using hie
+      simp only [hie', Bool.false_eq_true, if_false]
+      right
+      exact ⟨idx.length, by simp [clearExch, State.setObj, recordAdded, hsz]⟩
+  | false =>
+    simp only [Bool.false_eq_true, if_false, exchDel]
+    obtain ⟨_, hc, _, _⟩ := attemptDeletion_spec r s0
+    rcases hdl : attemptDeletion r s0 with ⟨idx, s1⟩
+    rw [hdl] at hc
+    dsimp only at hc
+    have hs1c : s1.ctx = s.ctx := by rw [hc, d3]
+    left
+    by_cases hie : idx.isEmpty = true
+    · simp only [hie, if_true]
+      rw [(clearExch_atoms s1 r).2, hs1c]
+    · have hie' : idx.isEmpty = false := by simpa using hie
+      simp only [hie', Bool.false_eq_true, if_false]
+      simp [clearExch, State.setObj, recordDeleted, saveFixed, hs1c]
+      split <;> rfl
+
+theorem exchCall_sizes_le (r : Nat) (s : State) (hfx : FixedOK s.atoms) (h0 : s.ctx.addedSizes = []) :
+    (exchCall r s).2.ctx.addedSizes.length ≤ 1 := by
+  rcases exchCall_sizes r s hfx with h | ⟨n, h⟩ <;> rw [h, h0] <;> simp
+
 end MM
